@@ -466,7 +466,11 @@ func runJob(w *hx.Worker, j job, maxLen int, only string) {
 					continue
 				}
 				// model: verdict, AST and the position after ParseFromLexer with trailing input
-				env := g.NewEnv(toks, p.Lexer().Symbols(), names, nil, j.lk, at)
+				var ci []string
+				if strings.Contains(j.os.name, "CaseInsensitive") {
+					ci = []string{"Ident"}
+				}
+				env := g.NewEnv(toks, p.Lexer().Symbols(), names, ci, j.lk, at)
 				out := env.Parse(j.gr, true)
 				w.Count("transitions", env.Steps)
 				if !out.Diag {
